@@ -272,6 +272,19 @@ loop:
 		case <-done:
 			break loop
 		case <-tick.C:
+			var ms runtime.MemStats
+			runtime.ReadMemStats(&ms)
+			if ms.HeapAlloc > 20<<30 {
+				// runaway allocation (a call into the code under test that produces data without end, or a harness bug):
+				// stop cleanly before the kernel kills the process
+				var running []string
+				for w := range p.cur {
+					if s := p.cur[w].shard.Load(); s != nil {
+						running = append(running, *s)
+					}
+				}
+				Fatalf("heap exceeds 20 GiB; shards running: %v", running)
+			}
 			if v := Progress.Load(); v != lastProgress {
 				lastProgress, lastMove = v, time.Now()
 			} else if p.Stall > 0 && time.Since(lastMove) > p.Stall {
